@@ -21,13 +21,13 @@ Theorem C05_fcc_parses_to_its_characters :
 Proof. exact fcc_parses_to_its_characters. Qed.
 Print Assumptions C05_fcc_parses_to_its_characters.
 
-(* ... and that statement emits exactly those characters, one byte each (characters $10..$FF, which
+(* ... and that statement emits exactly those characters, one byte each (every character below $100 - control characters too since repair F50 - which
    includes all printable ASCII), and reserves exactly that many bytes *)
 Theorem C05_fcc_emits_its_characters :
   forall i str s,
     text_eqb (mnem i) FCC_t = true -> text_eqb (mnem i) FCB_t = false -> text_eqb (mnem i) FDB_t = false ->
     text_eqb (mnem i) RMB_t = false -> text_eqb (mnem i) ORG_t = false ->
-    Forall (fun c => 16 <= c /\ c < 256) str ->
+    Forall (fun c => c < 256) str ->
     exists p, translate_operand (OPseudo s (VStr str)) i = Ok p /\
               emit_value (cp_op p) = Ok [] /\ emit_value (cp_post p) = Ok [] /\ emit_value (cp_add p) = Ok str /\
               cp_size p = N.of_nat (length str).
